@@ -7,6 +7,8 @@ generate(seed) -> (files, desc)
     printed         : {project: [option names whose get_option() value the build files print]}
     never_read      : build-definition files that exist in the tree but must NOT be read
     must_read       : build-definition files that must be read
+    reconfigure     : {'arg': '-Dname=value', 'name', 'value'} an option change for a later `setup --reconfigure`
+    configure       : the same for a later `meson configure` (name = the intro-buildoptions.json entry it must change)
     dumper_tests    : {test id: {'name', 'bench', 'exe': 'c'|'py', 'project'}}  tests whose program records argv/env/cwd
     features        : sorted feature cells
 
@@ -734,11 +736,36 @@ class Gen:
             a.append('--layout=flat')
             self.features.add('layout:flat')
         self.setup_args = a
+        # ---- later invocations on the same build directory (own RNG: the project itself does not depend on it)
+        r2 = random.Random(f'c15-life:{self.seed}')
+        cur = {x[2:].split('=', 1)[0]: x.split('=', 1)[1] for x in a if x.startswith('-D')}
+
+        def change(prefix: str, o: Opt) -> T.Tuple[str, str, T.Any]:
+            v = o.other_value(r2)
+            for _ in range(6):
+                if cmdval(v) != cur.get(prefix + o.name):
+                    break
+                v = o.other_value(r2)
+            return f'-D{prefix}{o.name}={cmdval(v)}', prefix + o.name, v
+        plain = [o for o in top_opts if o.name.startswith('o')]
+        first = r2.choice(plain)
+        arg, name, val = change('', first)
+        self.reconfigure = {'arg': arg, 'name': name, 'value': val}
+        cands: T.List[T.Tuple[str, str, T.Any]] = [change('', o) for o in plain if o is not first][:2]
+        wl = r2.choice([w for w in ('0', '1', '2', '3') if w != cur.get('warning_level')])
+        cands.append((f'-Dwarning_level={wl}', 'warning_level', wl))
+        if with_sp:
+            cands += [change('sp:', o) for o in sp_opts if not o.yielding][:1]
+            swl = r2.choice([w for w in ('0', '1', '2', '3') if w != cur.get('sp:warning_level')])
+            cands.append((f'-Dsp:warning_level={swl}', 'sp:warning_level', swl))
+        arg, name, val = r2.choice(cands)
+        self.configure = {'arg': arg, 'name': name, 'value': val}
 
     def desc(self) -> dict:
         return {'seed': str(self.seed), 'setup_args': self.setup_args, 'printed': self.printed,
                 'never_read': sorted(self.never_read), 'must_read': sorted(set(self.must_read)),
-                'dumper_tests': self.dumper_tests, 'features': sorted(self.features)}
+                'dumper_tests': self.dumper_tests, 'features': sorted(self.features),
+                'reconfigure': self.reconfigure, 'configure': self.configure}
 
 
 def generate(seed: T.Union[int, str], size: str = 'normal') -> T.Tuple[T.Dict[str, str], dict]:
